@@ -47,7 +47,7 @@ def run(ctx):
     ctx.prepare()
     ctx.lean(["Crng.Props.C01"], ["Crng.Props.C01.routes_exact", "Crng.Props.C01.sendAll_exact", "Crng.Props.C01.sendFirst_exact",
                                   "Crng.Props.C01.blacklisted_nowhere", "Crng.Props.C01.unroutable_iff", "Crng.Props.C01.outcome_partition"],
-             ties=[common.CODE_TABLE, common.CODE_ROUTE, common.CODE_MATCHER])
+             ties=[common.CODE_TABLE, common.CODE_ROUTE, common.CODE_MATCHER, common.CODE_COMPOSE])
     cs = cases(ctx, "t", ctx.scale(150, 3000), 25)
     # "exactly once to each matching route" also while the table is being changed: a Dispatch held inside the pipeline during
     # admin operations (C18's in-flight stream, fewer cases) must have done what some complete table of that history does
